@@ -372,7 +372,8 @@ PROPS = {
                ('u_jenc', [r'::serialize$'], dict(one_spelling=True))],
         kani=[dict(harness='k_json_number_exact', klass='complete', schema=['f64'], family='json-number', target='<Number as Serialize>::serialize (panic-free over all f64)'),
               dict(harness='k_zinc_keywords', klass='complete', schema=['u8'], family=None, target='to_zinc of Marker/Remove/Na/Bool')],
-        witness='enum:zinc-encode-panics',
+        witness=['enum:zinc-encode-panics', 'enum:random-values'],
+        enums_thorough=['enum:random-values 400000'],
         design_ref='DESIGN.md section 4, C10',
         level_text=('Proof (Verus, unbounded, no precondition on the value): the scalar Zinc writers -- Marker, Remove, NA, Bool, Number, '
                     'Date, Time, DateTime, Str, Ref, Symbol, XStr, Coord, the shared quoted-string writer -- and the collection writers List, Dict, Grid '
@@ -410,8 +411,8 @@ PROPS = {
               dict(harness='k_reader_chunks', klass='bounded', bound='3-byte stream, <= 2 Interrupted results, symbolic chunk lengths',
                    target='Scanner::make / read_byte (reader contract)', timeout=1500, thorough_only=True),
               dict(harness='k_json_number_exact', klass='complete', schema=['f64'], family='json-number', target='<Number as Serialize>::serialize (re-encoding a decoded number denotes the same f64)')],
-        witness='zinc', enums=['enum:stream-chunks', 'enum:reencode-stable', 'enum:lazy-rows', 'enum:random-values'],
-        enums_thorough=['enum:random-values 400000'],
+        witness='zinc', enums=['enum:stream-chunks', 'enum:reencode-stable', 'enum:lazy-rows', 'enum:random-values', 'enum:random-chunks'],
+        enums_thorough=['enum:random-values 400000', 'enum:random-chunks 100000'],
         design_ref='DESIGN.md section 4, C11',
         level_text=('Proof (Verus) of the second sentence only, as a frame argument: in the extracted decoder the reader is an opaque token '
                     'that only Scanner::make and read_byte can touch; every other function of the scanner, lexer and parsers -- including the '
